@@ -5,6 +5,7 @@
   through it): when the source of one of these functions changes, the corresponding theorem stops checking.
 -/
 import MultiModel.Gen.IterGen
+import MultiProofs.TieTactic
 
 namespace Multi.GenTieIter
 open Multi Multi.Gen
@@ -25,7 +26,7 @@ theorem X_from_linear_asserts_tie (e e1 : Ext) (es : List Ext) (n : Int) :
 
 theorem X_to_linear_tie (e e1 : Ext) (es : List Ext) (i : Int) (rest : List Int) :
     X_to_linear (e :: e1 :: es) i rest = Exts.toLinear (e :: e1 :: es) (i :: rest) := by
-  simp [X_to_linear, Exts.toLinear]
+  tie_simp [X_to_linear, Exts.toLinear]
 
 theorem X_next_canonical_tie (e e1 : Ext) (es : List Ext) (i : Int) (rest : List Int) :
     X_next_canonical (e :: e1 :: es) i rest = Exts.nextCanonical (e :: e1 :: es) (i :: rest) := by
@@ -47,17 +48,17 @@ theorem X_prev_canonical_tie (e e1 : Ext) (es : List Ext) (i : Int) (rest : List
     · rw [if_neg hc]; exact if_neg (fun hd => hc (of_decide_eq_true hd))
 
 theorem X1_from_linear_tie (e : Ext) (n : Int) : some (X1_from_linear [e] n) = Exts.fromLinear [e] n := by
-  simp [X1_from_linear, Exts.fromLinear]
+  tie_simp [X1_from_linear, Exts.fromLinear]
 theorem X1_to_linear_tie (e : Ext) (i : Int) (rest : List Int) : X1_to_linear [e] i = Exts.toLinear [e] (i :: rest) := by
-  simp [X1_to_linear, Exts.toLinear]
+  tie_simp [X1_to_linear, Exts.toLinear]
 theorem X1_num_elements_tie (e : Ext) : X1_num_elements [e] = Exts.numElements [e] := by
-  simp [X1_num_elements, Exts.numElements]
+  tie_simp [X1_num_elements, Exts.numElements]
 theorem X1_next_canonical_tie (e : Ext) (i : Int) (rest : List Int) :
     X1_next_canonical [e] i = Exts.nextCanonical [e] (i :: rest) := by
-  simp [X1_next_canonical, Exts.nextCanonical]
+  tie_simp [X1_next_canonical, Exts.nextCanonical]
 theorem X1_prev_canonical_tie (e : Ext) (i : Int) (rest : List Int) :
     X1_prev_canonical [e] i = Exts.prevCanonical [e] (i :: rest) := by
-  simp [X1_prev_canonical, Exts.prevCanonical]
+  tie_simp [X1_prev_canonical, Exts.prevCanonical]
 
 /-- `extensions_t::operator==` / `!=` are tuple (in)equality of the ranges, for D > 1 and D = 1 alike -/
 theorem X_eq_tie (xs ys : List Ext) :
@@ -66,13 +67,22 @@ theorem X_eq_tie (xs ys : List Ext) :
 
 /-! ### `array_iterator` (D > 1 and D = 1) -/
 
-theorem I_inc_tie (it : ArrIt) : I_inc it = it.inc ∧ I1_inc it = it.inc := ⟨rfl, rfl⟩
-theorem I_dec_tie (it : ArrIt) : I_dec it = it.dec ∧ I1_dec it = it.dec := ⟨rfl, rfl⟩
-theorem I_add_tie (it : ArrIt) (n : Int) : I_add it n = it.add n ∧ I1_add it n = it.add n := ⟨rfl, rfl⟩
+theorem I_inc_tie (it : ArrIt) : I_inc it = it.inc ∧ I1_inc it = it.inc := by
+  constructor
+  · tie_simp [I_inc, ArrIt.inc]
+  · tie_simp [I1_inc, ArrIt.inc]
+theorem I_dec_tie (it : ArrIt) : I_dec it = it.dec ∧ I1_dec it = it.dec := by
+  constructor
+  · tie_simp [I_dec, ArrIt.dec]
+  · tie_simp [I1_dec, ArrIt.dec]
+theorem I_add_tie (it : ArrIt) (n : Int) : I_add it n = it.add n ∧ I1_add it n = it.add n := by
+  constructor
+  · tie_simp [I_add, ArrIt.add]
+  · tie_simp [I1_add, ArrIt.add]
 theorem I_sub_tie (it : ArrIt) (n : Int) : I_sub it n = it.sub' n ∧ I1_sub it n = it.sub' n := by
-  refine ⟨?_, rfl⟩
-  simp only [I_sub, ArrIt.sub', Int.mul_neg]
-  congr 1
+  constructor
+  · tie_simp [I_sub, ArrIt.sub']
+  · tie_simp [I1_sub, ArrIt.sub']
 theorem I_diff_tie (it o : ArrIt) : I_diff it o = it.diff o ∧ I1_diff it o = it.diff o := ⟨rfl, rfl⟩
 /-- the D = 1 iterator asserts what the model's `diffAsserts` says; the D > 1 iterator omits the divisibility test -/
 theorem I_diff_asserts_tie (it o : ArrIt) :
